@@ -10,6 +10,7 @@
 -/
 import FastPasta.Model.Words
 import FastPasta.Proofs.Basic
+import FastPasta.Proofs.WordsSrcTie
 namespace FastPasta
 namespace C11
 
@@ -133,6 +134,55 @@ theorem data_reported_sanity_iff (w : Bytes) (lanes : Nat) :
     dataWordCodes false lanes w ≠ [] ↔ isValidDataId (wordId w) = false := by
   unfold dataWordCodes
   by_cases hvalid : isValidDataId (wordId w) = true <;> simp [hvalid]
+
+/-! ### the same statements about the functions TRANSLATED FROM THE RUST SOURCE on this run
+    (`Spec/WordsSrcGen.lean`, generated by `tools/rs2lean.py`; `Proofs/WordsSrcTie.lean` proves model = source) -/
+open SrcWords in
+/-- `IhwValidator::sanity_check(Ihw::from_buf(w))` is `Ok` exactly on the documented bit pattern — all 2^80 values -/
+theorem ihw_src_check_iff (w : Bytes) (h : w.length = 10) :
+    ∃ t, Ihw.from_buf w = .ok t ∧ ((IhwValidator.sanity_check t).isErr = false ↔ IhwSpec (leNat w)) := by
+  obtain ⟨t, ht, he⟩ := SrcTie.ihw_sane_eq w
+  refine ⟨t, ht, ?_⟩; rw [he, ← ihw_sane_iff w h]; cases ihwSane w <;> simp
+open SrcWords in
+theorem tdh_src_check_iff (w : Bytes) (h : w.length = 10) :
+    ∃ t, Tdh.from_buf w = .ok t ∧ ((TdhValidator.sanity_check t).isErr = false ↔ TdhSpec (leNat w)) := by
+  obtain ⟨t, ht, he⟩ := SrcTie.tdh_sane_eq w
+  refine ⟨t, ht, ?_⟩; rw [he, ← tdh_sane_iff w h]; cases tdhSane w <;> simp
+open SrcWords in
+theorem tdt_src_check_iff (w : Bytes) (h : w.length = 10) :
+    ∃ t, Tdt.from_buf w = .ok t ∧ ((TdtValidator.sanity_check t).isErr = false ↔ TdtSpec (leNat w)) := by
+  obtain ⟨t, ht, he⟩ := SrcTie.tdt_sane_eq w
+  refine ⟨t, ht, ?_⟩; rw [he, ← tdt_sane_iff w h]; cases tdtSane w <;> simp
+open SrcWords in
+theorem ddw0_src_check_iff (w : Bytes) (h : w.length = 10) :
+    ∃ t, Ddw0.from_buf w = .ok t ∧ ((Ddw0Validator.sanity_check t).isErr = false ↔ Ddw0Spec (leNat w)) := by
+  obtain ⟨t, ht, he⟩ := SrcTie.ddw0_sane_eq w
+  refine ⟨t, ht, ?_⟩; rw [he, ← ddw0_sane_iff w h]; cases ddw0Sane w <;> simp
+
+open SrcWords in
+/-- the three data-word validators of the source: identifier table, `[E72]`, `[E71]`/`[E73]` -/
+theorem data_src_checks (w : Bytes) (lanes : Nat) :
+    ((DataWordSanityChecker.check_any w).isErr = !isValidDataId (wordId w)) ∧
+    ((IbDataWordValidator.check w lanes).errStr.codes = if laneActive (ibLane (wordId w)) lanes then [] else [72]) ∧
+    ((ObDataWordValidator.check w lanes).errStr.codes =
+      (if laneActive (obLane (wordId w)) lanes then [] else [71]) ++ (if obConnectorInput (wordId w) > 6 then [73] else [])) :=
+  ⟨SrcTie.check_any_eq w, SrcTie.ib_check_eq w lanes, SrcTie.ob_check_eq w lanes⟩
+
+/-- the accessors the state-dependent checks read are the source's (`from_buf` + field methods) -/
+theorem accessors_src (w : Bytes) :
+    (∃ t, SrcWords.Ihw.from_buf w = .ok t ∧ t.active_lanes = ihwActiveLanes w) ∧
+    (∃ t, SrcWords.Tdh.from_buf w = .ok t ∧ t.trigger_type = tdhTriggerType w ∧ t.internal_trigger = tdhInternal w ∧
+      t.no_data = tdhNoData w ∧ t.continuation = tdhContinuation w ∧ t.trigger_bc = tdhBc w ∧ t.trigger_orbit = tdhOrbit w) ∧
+    (∃ t, SrcWords.Tdt.from_buf w = .ok t ∧ t.packet_done = tdtPacketDone w) ∧
+    (∃ t, SrcWords.Cdw.from_buf w = .ok t ∧ t.calibration_user_fields = cdwUserFields w ∧ t.calibration_word_index = cdwIndex w) :=
+  ⟨SrcTie.ihw_active_lanes_eq w, SrcTie.tdh_fields_eq w, SrcTie.tdt_packet_done_field_eq w, SrcTie.cdw_fields_eq w⟩
+
+/-- lane mapping and lane-activity test of the source (release-profile shift masking included) -/
+theorem lanes_src (id lane lanes : Nat) (h : id < 256) :
+    SrcWords.ob_data_word_id_to_lane id = obLane id ∧ SrcWords.ib_data_word_id_to_lane id = ibLane id ∧
+    SrcWords.ob_data_word_id_to_input_number_connector id = obConnectorInput id ∧
+    SrcWords.is_lane_active lane lanes = laneActive lane lanes :=
+  ⟨SrcTie.ob_lane_eq id h, SrcTie.ib_lane_eq id, SrcTie.ob_connector_eq id, SrcTie.is_lane_active_eq lane lanes⟩
 
 /-! ### non-vacuity: concrete words on both sides of each predicate -/
 example : ihwSane [0xFF,0x3F,0,0,0,0,0,0,0,0xE0] = true := by decide
